@@ -1057,6 +1057,59 @@ func streamCancel(c *Ctx) {
 				return got, got == "send=canceled receive=canceled"
 			}})
 		}
+		// K16: the context ends while a server-streaming call is still uploading its (large)
+		// request to a peer that does not read: whether the call itself or the stream's
+		// Receive/Err reports it, the code is the context's
+		for _, ending := range []string{"cancel", "deadline"} {
+			ending := ending
+			scs = append(scs, scenario{"cancel-blocked-receive", fmt.Sprintf("server-streaming call: %s while the 16 MiB request is held up by a peer that does not read, %s", ending, proto), func() (string, bool) {
+				release := make(chan struct{})
+				srv := startServer(http.HandlerFunc(func(w http.ResponseWriter, r *http.Request) {
+					<-release // never reads the body
+				}), true)
+				defer srv.Close()
+				defer close(release)
+				cl := connect.NewClient[[]byte, []byte](srv.Client(), srv.URL+"/s/m", append(protoOpts(proto), connect.WithCodec(rawCodec{"raw"}))...)
+				var ctx context.Context
+				var cancel context.CancelFunc
+				want := "canceled"
+				if ending == "cancel" {
+					ctx, cancel = context.WithCancel(context.Background())
+					go func() { time.Sleep(200 * time.Millisecond); cancel() }()
+				} else {
+					ctx, cancel = context.WithTimeout(context.Background(), 200*time.Millisecond)
+					want = "deadline_exceeded"
+				}
+				defer cancel()
+				big := make([]byte, 16<<20)
+				x := uint64(88172645463325252)
+				for i := range big {
+					x ^= x << 13
+					x ^= x >> 7
+					x ^= x << 17
+					big[i] = byte(x)
+				}
+				done := make(chan string, 1)
+				go func() {
+					st, err := cl.CallServerStream(ctx, connect.NewRequest(&big))
+					if err != nil {
+						done <- "call:" + codeName(err)
+						return
+					}
+					for st.Receive() {
+					}
+					e := codeName(st.Err())
+					_ = st.Close()
+					done <- "stream:" + e
+				}()
+				select {
+				case got := <-done:
+					return got, strings.TrimSuffix(strings.SplitN(got, ":", 2)[1], "+eof") == want && !strings.HasSuffix(got, "+eof")
+				case <-time.After(5 * time.Second):
+					return "the call is still running 5s after the context ended", false
+				}
+			}})
+		}
 		// K6: the context ends between the prefix write and the payload write of one Send
 		scs = append(scs, scenario{"cancel-mid-send", "context cancelled between the two writes of one Send, " + proto, func() (string, bool) {
 			return cancelMidSend(proto)
@@ -1531,7 +1584,7 @@ func streamLife(c *Ctx) {
 		// L3b: a Receive that fails locally returns, so that the program can go on and close its
 		// side, while the handler is still waiting for the client (F12: the gRPC client drains the
 		// response body to reach the HTTP trailers and blocks until the handler ends)
-		for _, variant := range []string{"oversize", "undecodable"} {
+		for _, variant := range []string{"oversize", "oversize-on-the-wire", "undecodable"} {
 			variant := variant
 			key := "life-receive-error-returns"
 			if proto == "grpc" {
@@ -1545,6 +1598,15 @@ func streamLife(c *Ctx) {
 					bad := bytes.Repeat([]byte{1}, 1000)
 					if variant == "undecodable" {
 						bad = []byte{0xEE, 1, 2}
+					}
+					if variant == "oversize-on-the-wire" { // incompressible: over the limit before decompression
+						x := uint64(88172645463325252)
+						for i := range bad {
+							x ^= x << 13
+							x ^= x >> 7
+							x ^= x << 17
+							bad[i] = byte(x)
+						}
 					}
 					if err := s.Send(&bad); err != nil {
 						return err
